@@ -2,6 +2,7 @@ import Clikit.Model.History
 import Clikit.Props.C05
 import Clikit.Lemmas.Dict
 import Clikit.Lemmas.AppState
+import Clikit.Lemmas.IndentShared
 /-!
 # C17 - what is rendered does not depend on what was processed before
 
@@ -413,5 +414,122 @@ example : ¬ Restored (runAppSP preD21 env cv app hs fresh helpFails).2 := fun h
   decide +kernel
 
 end AppDemo
+
+/-! ## Renderings on one I/O: indentation scopes over outputs that may be ONE object
+
+`Model/IndentShared.lean`: the outputs of an I/O are objects; `IO(input, out, out)` lists one object twice
+in every scope `io.indent(n)` / `io.increment_indent(n)` opens (also the scopes components open while they
+render). -/
+section IndentShared
+open Clikit.IndentShared
+
+/-- **`Indent` gives every output back the indentation it had**, for ANY list of outputs - also one that
+lists an output object twice (an I/O whose two channels are one `Output`) - and whatever was done to the
+listed outputs inside the scope. -/
+theorem indent_restores_shared (h : Heap) (refs : List Nat) (inc : Bool) (n : Nat) (h' : Heap)
+    (hf : ∀ x, x ∉ refs → h' x = h x) :
+    leave refs (enter h refs inc n).2 h' = h :=
+  leave_restores refs h h' hf
+
+/-- entering and leaving at once -/
+theorem indent_enter_leave (h : Heap) (refs : List Nat) (inc : Bool) (n : Nat) :
+    leave refs (enter h refs inc n).2 (enter h refs inc n).1 = h :=
+  leave_restores refs h _ (fun x hx => apply_frame inc n refs h x hx)
+
+/-- **Any history of renderings and nested scopes on one I/O - two output objects or one shared object,
+scopes left normally or by an exception - leaves the indentation of every output object as it was, and
+every rendering finds the indentation of the scopes that enclose it and of nothing that ran before.** -/
+theorem render_history_restores (io : IORefs) (p : Prog) (h : Heap) :
+    exec io p h = ((lexical io p h).1, h, (lexical io p h).2) := by
+  induction p generalizing h with
+  | skip => rfl
+  | seq a b iha ihb =>
+    simp only [exec, execP, lexical] at *
+    rw [iha h]
+    cases hr : (lexical io a h).2 with
+    | true =>
+      have : lexical io a h = ((lexical io a h).1, true) := by rw [← hr]
+      rw [this]
+    | false =>
+      have : lexical io a h = ((lexical io a h).1, false) := by rw [← hr]
+      rw [this]
+      simp only
+      rw [ihb h]
+  | render c => rfl
+  | scope t inc n body ih =>
+    simp only [exec, execP, lexical, Bool.false_eq_true, if_false] at *
+    rw [ih]
+    simp only
+    rw [indent_enter_leave]
+  | raise => rfl
+  | attempt body ih =>
+    simp only [exec, execP, lexical] at *
+    rw [ih h]
+
+/-- the indentation after any history is the indentation before it -/
+theorem render_history_indentation_kept (io : IORefs) (p : Prog) (h : Heap) : (exec io p h).2.1 = h := by
+  rw [render_history_restores]
+
+/-- **What a rendering finds does not depend on what was rendered before**: after any history `before`
+that ended normally, the renderings of `p` find what they find when `p` is the first thing done with the
+I/O. -/
+theorem render_independent_of_history (io : IORefs) (before p : Prog) (h : Heap)
+    (hn : (lexical io before h).2 = false) :
+    (exec io (.seq before p) h).1 = (exec io before h).1 ++ (exec io p h).1 := by
+  rw [render_history_restores, render_history_restores io before, render_history_restores io p]
+  simp only [lexical]
+  have : lexical io before h = ((lexical io before h).1, false) := by rw [← hn]
+  rw [this]
+
+/-- a component rendered twice finds the same both times, whatever is rendered in between -/
+theorem render_twice_same (io : IORefs) (c : Nat) (between : Prog) (h : Heap)
+    (hn : (lexical io between h).2 = false) :
+    ∃ w, (exec io (.seq (.render c) (.seq between (.render c))) h).1 =
+      [(c, h io.out, h io.err)] ++ w ++ [(c, h io.out, h io.err)] := by
+  refine ⟨(lexical io between h).1, ?_⟩
+  rw [render_history_restores]
+  simp only [lexical]
+  have : lexical io between h = ((lexical io between h).1, false) := by rw [← hn]
+  rw [this]
+  simp
+
+/-- recording the value to restore inside the loop of `__init__` is the same protocol on an I/O with two
+output OBJECTS ... -/
+theorem late_snapshot_same_when_distinct (io : IORefs) (hne : io.out ≠ io.err) (p : Prog) (h : Heap) :
+    execP true io p h = exec io p h := by
+  have hnd : ∀ t, (io.refs t).Nodup := by
+    intro t; cases t <;> simp [IORefs.refs, hne]
+  induction p generalizing h with
+  | skip => rfl
+  | seq a b iha ihb => simp only [exec, execP] at *; rw [iha]; split <;> simp_all
+  | render c => rfl
+  | scope t inc n body ih =>
+    simp only [exec, execP, if_true, Bool.false_eq_true, if_false] at *
+    rw [enterLate_nodup inc n _ (hnd t)]
+    simp only [enter, List.nil_append]
+    rw [ih]
+  | raise => rfl
+  | attempt body ih => simp only [exec, execP] at *; rw [ih]
+
+/-- ... **and leaks on an I/O whose two channels are one `Output` object**: while a component that
+increments the indentation by 2 renders, the object (listed twice) is at 4 under either protocol; the late
+protocol recorded 0 and then 2 and restores in that order, so the next rendering finds 2 where the code as it
+is finds 0; after an empty `with io.indent(3)` the next rendering finds 3. -/
+theorem late_snapshot_leaks_when_shared :
+    (execP true { out := 0, err := 0 } (.seq (.scope .io true 2 (.render 0)) (.render 1)) (heapOf 0 0)).1
+      = [(0, 4, 4), (1, 2, 2)] ∧
+    (exec { out := 0, err := 0 } (.seq (.scope .io true 2 (.render 0)) (.render 1)) (heapOf 0 0)).1
+      = [(0, 4, 4), (1, 0, 0)] ∧
+    (execP true { out := 0, err := 0 } (.seq (.scope .io false 3 .skip) (.render 1)) (heapOf 0 0)).1 = [(1, 3, 3)] := by
+  decide
+
+/-- non-vacuity: a shared object, nested scopes, an exception caught outside -/
+example : (exec { out := 0, err := 0 }
+    (.seq (.attempt (.scope .io true 2 (.seq (.render 0) (.scope .out false 7 (.seq (.render 1) .raise))))) (.render 2))
+    (heapOf 1 1)).1 = [(0, 5, 5), (1, 7, 7), (2, 1, 1)] := by decide
+example : (exec { out := 0, err := 1 } (.seq (.scope .err true 2 (.render 0)) (.render 1)) (heapOf 0 3)).1
+    = [(0, 0, 5), (1, 0, 3)] := by decide
+
+end IndentShared
 
 end Clikit.Props.C17
